@@ -50,11 +50,13 @@ static void ae_touch(void) { if (ae_mark) ++ae_engine_calls_after_mark; }
 static void ae_commit(ae_chan_t * c)
 { /* the samples written into the last input buffer are consumed now */
   size_t j;
+#ifndef AE_NO_SEQ
   if (c->inbuf && ae_check_seq) for (j = 0; j < c->inbuf_n; ++j) {
     double v = (c->kind & 1)? ((double *)c->inbuf)[j] : (double)((float *)c->inbuf)[j];
     VF_ASSERT(v == (double)(8 * (c->in_total + j) + (unsigned)c->id),
         "engine input: frames are handed over once, in order, to the right channel");
   }
+#endif
   c->in_total += c->inbuf_n;
 #ifndef AE_FIXED_BUFS
   free(c->inbuf);
@@ -190,7 +192,9 @@ control_block_t _soxr_vr32_cb    = AE_CB(ae_createvr , ae_set_io_ratio, ae_idvr)
 double in_inv_f_resp;   /* value of lsx_inv_f_resp(), any number in (0,1) */
 double _soxr_inv_f_resp(double drop, double a) { (void)drop; (void)a; return in_inv_f_resp; }
 #if !defined VF_NATIVE
+#ifndef VF_OWN_GETENV
 char * getenv(char const * name) { (void)name; return 0; }   /* no SOXR_* overrides unless a harness models them */
+#endif
 long in_time;
 time_t time(time_t * t) { if (t) *t = (time_t)in_time; return (time_t)in_time; }
 #endif
